@@ -195,6 +195,81 @@ def disciplined (T : List (Row ι κ)) : Bool :=
 def racePairs (T : List (Row ι κ)) : List (Row ι κ × Row ι κ) :=
   T.flatMap fun r => (T.filter fun s => !pairOK r s).map fun s => (r, s)
 
+/-! ### Memory reachable from shared fields (escape / alias table)
+
+  A field of slice, map or pointer type is the handle of more memory — the backing array, the
+  map, the pointee: its *store*.  The access table above has one location per field; the store
+  behind a field is a location of its own, and its set of accessors (its *owner set*) is not
+  determined by the accesses to the field: a reference that was loaded from the field inside a
+  lock region and is still used after the region was left (returned, kept in a result struct
+  or a local, handed to a callee) makes the role that uses it an accessor of the store
+  WITHOUT the lock.  tools/access follows the references and emits one `Escape` row per class
+  of access to a store. -/
+
+/-- How the reference an access goes through relates to the lock region it was loaded in. -/
+inductive How
+  /-- every lock that was held when the reference was loaded from shared memory is still held -/
+  | inRegion
+  /-- the access is the read of a copy (`slices.Clone`, `maps.Clone`, `append(fresh, x...)`,
+      `copy(fresh, x)`); what the function goes on with is private -/
+  | copied
+  /-- some lock of the region the reference was loaded in is no longer held: an alias that
+      outlives its lock region -/
+  | escaped
+  deriving DecidableEq, Repr, Inhabited
+
+/-- One row of the escape table: role `role` accesses store `store` through a reference
+    (`how`), holding `locks` at the access; `mutated` = the access appends to / assigns an
+    element or field of / deletes from / sorts the store; `fresh` = the object the access goes
+    through was created by the accessing function and is not published yet. -/
+structure Escape (σ κ : Type) where
+  store : σ
+  role : Role
+  how : How
+  mutated : Bool
+  locks : List (κ × Mode)
+  fresh : Bool
+  sites : List String
+  deriving Repr
+
+section escapes
+variable {σ : Type} [DecidableEq σ]
+
+/-- The access to the store that an escape row stands for: the accessing role joins the owner
+    set of the store with exactly the locks it holds at that point. -/
+def Escape.toRow (e : Escape σ κ) : Row σ κ :=
+  ⟨e.store, e.role, if e.mutated then .write else .read, e.locks, false, e.fresh, e.sites⟩
+
+def storeRows (E : List (Escape σ κ)) : List (Row σ κ) := E.map Escape.toRow
+
+/-- The owner set of a store: who accesses it, how, holding what. -/
+def accessors (E : List (Escape σ κ)) (s : σ) : List (Role × Kind × List (κ × Mode)) :=
+  ((storeRows E).filter fun r => r.loc == s && !r.fresh).map fun r => (r.role, r.kind, r.locks)
+
+/-- No reference that outlives its lock region un-copied is appended to or written through
+    (writes to an object that is still private to its creator do not count). -/
+def noEscapedMutation (E : List (Escape σ κ)) : Bool :=
+  E.all fun e => !(e.how == .escaped && e.mutated) || e.fresh
+
+def escapedMutations (E : List (Escape σ κ)) : List (Escape σ κ) :=
+  E.filter fun e => e.how == .escaped && e.mutated && !e.fresh
+
+/-- The alias discipline: no escaped reference is written through, and the accesses to every
+    store — through the field, through copies being taken, through escaped aliases — obey the
+    lockset discipline; in particular the original is not mutated in place after publication
+    unless every accessor of the store, escaped aliases included, holds the lock. -/
+def aliasDisciplined (E : List (Escape σ κ)) : Bool :=
+  noEscapedMutation E && disciplined (storeRows E)
+
+def Row.mapLoc {ι' : Type} (f : ι → ι') (r : Row ι κ) : Row ι' κ :=
+  ⟨f r.loc, r.role, r.kind, r.locks, r.atomic, r.fresh, r.sites⟩
+
+/-- The table over the fields (`inl`) and the stores behind them (`inr`). -/
+def fullTable (T : List (Row ι κ)) (E : List (Escape σ κ)) : List (Row (ι ⊕ σ) κ) :=
+  T.map (Row.mapLoc Sum.inl) ++ (storeRows E).map (Row.mapLoc Sum.inr)
+
+end escapes
+
 /-! ### Lock order and deadlock -/
 
 /-- Every acquisition happens while holding only locks that the order table lists before the
